@@ -354,32 +354,32 @@ _ADT_FIELDS = {}
 _ADT_BY_NAME = {}
 
 
-def _relocate(path):
+def _relocate(path, kind="struct"):
     """witness values name their types by module path; if a type has moved, find it again by its name (when that is unambiguous)"""
     if not _ADT_BY_NAME:
         for a in facts("wow_message_parser").all("adt"):
             _ADT_BY_NAME.setdefault(a["path"].split("::")[-1], []).append(a["path"])
+            _ADT_BY_NAME.setdefault("#paths", set()).add(a["path"])
+    paths = _ADT_BY_NAME["#paths"]
     canon = path.startswith("wow_message_parser::")
-    segs = path.split("::")
-    for k in (1, 2):
+    norm = "crate::" + path[len("wow_message_parser::"):] if canon else path
+    segs = norm.split("::")
+    parent = "::".join(segs[:-1])
+    if (kind == "variant" and parent in paths) or (kind == "struct" and (norm in paths or parent in paths)):
+        return path
+    for k in ((2,) if kind == "variant" else (1, 2)):
         if len(segs) > k:
-            ty = segs[-k]
-            hits = _ADT_BY_NAME.get(ty, [])
-            full = "::".join(segs[:len(segs) - k + 1])
+            hits = [h for h in _ADT_BY_NAME.get(segs[-k], []) if isinstance(h, str)]
             if len(hits) == 1:
-                base = hits[0]
-                if canon:
-                    base = "wow_message_parser::" + base[len("crate::"):]
-                if base != full:
-                    return "::".join([base] + segs[len(segs) - k + 1:])
-                return path
+                new = "::".join([hits[0]] + segs[len(segs) - k + 1:])
+                return "wow_message_parser::" + new[len("crate::"):] if canon else new
     return path
 
 
 def _fill(v):
     """add the fields the witness does not care about (None) so that a new field in the repository does not break the instance"""
     if isinstance(v, tuple) and v and v[0] in ("struct", "variant") and isinstance(v[1], str):
-        v = (v[0], _relocate(v[1])) + tuple(v[2:])
+        v = (v[0], _relocate(v[1], v[0])) + tuple(v[2:])
     if isinstance(v, tuple) and v and v[0] == "struct":
         if not _ADT_FIELDS:
             for a in facts("wow_message_parser").all("adt"):
